@@ -993,8 +993,11 @@ def outcome {α : Type} : Except Err α → Option Err
   | .ok _ => none
   | .error e => some e
 
-/-- the two lines parse with the same outcome under every format (the help switch is an
-option of every command and consumes nothing) -/
+/-- the two lines parse with the same outcome under EVERY format (the help switch is an
+option of every command and consumes nothing).  As a hypothesis this is stronger than any
+application can satisfy (it also speaks about formats that do not declare the switch);
+`Lemmas/HelpSame.helpResolve_congr_tree` replaces it by the formats of the commands of the tree,
+where `parse_flag_appended` proves it. -/
 def ParseAgree (cv : Conv) (a b : List Str) : Prop :=
   ∀ (f : Fmt) (len : Bool), outcome (parse cv f len a) = outcome (parse cv f len b)
 
